@@ -5,6 +5,7 @@ package natsenv
 
 import (
 	"fmt"
+	"net"
 	"sync"
 	"time"
 
@@ -98,6 +99,34 @@ func (e *Env) WaitWire(pred func([]WireMsg) bool, d time.Duration) bool {
 		e.cond.Wait()
 	}
 	return true
+}
+
+// Restart stops the server and starts a new one on the same port; client
+// connections reconnect on their own.
+func (e *Env) Restart() error {
+	port := 0
+	if a, ok := e.Srv.Addr().(*net.TCPAddr); ok {
+		port = a.Port
+	}
+	e.Srv.Shutdown()
+	e.Srv.WaitForShutdown()
+	opts := *e.opts
+	opts.Port = port
+	var srv *server.Server
+	var err error
+	for i := 0; i < 50; i++ {
+		srv, err = server.NewServer(&opts)
+		if err == nil {
+			go srv.Start()
+			if srv.ReadyForConnections(2 * time.Second) {
+				e.Srv = srv
+				return nil
+			}
+			srv.Shutdown()
+		}
+		time.Sleep(20 * time.Millisecond)
+	}
+	return fmt.Errorf("restart failed: %v", err)
 }
 
 // Shutdown stops the gateway connection and the server.
